@@ -30,6 +30,7 @@
 import Cog.Sem.DefaultsPyHolds
 import Cog.Sem.DefaultsPasses
 import Cog.Gen.Chains
+import Cog.Front.KeepsDefaults
 namespace Cog.Sem.Defaults
 open Cog.Sem Cog.IR Cog.Passes Cog.Gen.Chains
 open PyVal (pyEncode)
@@ -389,5 +390,230 @@ theorem C10_witness_verdicts :
     verdicts wSameKindUnionZero "tz" = some (false, true, false) ∧        -- Go omits "" (omitempty)
     verdicts wSameKindUnion "tz" = some (true, true, true) := by          -- a non-zero default is held
   refine ⟨?_, ?_, ?_, ?_, ?_, ?_, ?_, ?_, ?_, ?_, ?_⟩ <;> decide +kernel
+
+/-! ## defaults and constants survive the FRONT-END and the chains (JSON Schema inputs)
+    ---- BEGIN block of the c01-front builder (front-end model: Cog/Front/JsonSchema*.lean; tie: stream `c01-front`) ----
+
+  `frontEnd` is the literal model of internal/jsonschema/generator.go (Cog/Front/JsonSchema.lean).  For a property `p` of an
+  object definition `s` (`isObjectNode`, properties key-sorted as in a Go map dump) that is a typed scalar (`scalarNode`:
+  `type` boolean / string / number / integer, no `$ref`, combinator or `enum`):
+    * the front-end's struct for `s` has a field of type `scalarOf` (Cog/Front/JsonSchemaKeeps.lean: `keeps_property`):
+      `Default` = the source's `default` with the dynamic Go type of utils.go (`srcDefault`: int64 / float64 after the
+      8b0989b unwrapping for numbers, the raw value otherwise), `Value` = the source's constant (`srcConst`: `const`, or
+      the text of a constant `^literal$` pattern);
+    * on `Plain` (`PlainN`) front-end output the regenerated Go (Python) chain keeps that field up to the nullable flag
+      NotRequiredFieldAsNullableType adds (`chain_struct`, `widen_py`);
+    * C10's theorems then give the constructor's JSON.
+  `srcField s p t` is that post-chain field as a function of the SOURCE keywords; `goFits` / `pyFits` / `declaredOf` on it
+  are decidable conditions on the source (default of the property's JSON type, int64 range, quarter-exact floats …). -/
+
+namespace FE
+open Cog.Front.JsonSchema Cog.Front.Keeps Cog.Sem.Src
+
+/-- the post-chain field of a typed scalar property, from the source keywords alone -/
+def srcField (s : JS) (p : String × JS) (t : String) : Field :=
+  scalarImg p.1 (scalarOf p.2.attrs t) (s.attrs.required.contains p.1)
+
+/-- Go: a typed scalar property whose default / constant fits is held by `json.Marshal(New<Root>())` -/
+theorem C10_jsonschema_default_go_end_to_end_partial
+    (pkg : String) (defs : Defs) (fuel : Nat) (root : String) (S Sg : Schemas) (s : JS) (p : String × JS) (t : String)
+    (fuel' : Nat) (jg j : Json)
+    (hS : frontEnd pkg defs fuel (refTo root) = .ok S)
+    (hroot : lookupDef defs root = some s) (hobj : isObjectNode s = true) (hsorted : sortedKeys (propsOf s) = true)
+    (hp : p ∈ propsOf s) (hsc : scalarNode p.2 = some t)
+    (hP : Plain S = true) (hrun : runChain goChain S = .ok Sg) (hgo : goDefaults fuel' Sg pkg root = .ok jg)
+    (hfit : goFits [] (srcField s p t) = true) (hj : declaredOf (srcField s p t) = some j) :
+    holds jg p.1 j = true := by
+  obtain ⟨o, fs, f, ho, hty, hsp, hsn, hf, hname, hreq, hfty, hbuilt⟩ := keeps_property pkg defs fuel root S hS hroot hobj hp hsc
+  rw [sortFields_id hsorted hbuilt] at hty
+  obtain ⟨hloc, hty'⟩ := chain_struct goChain (by decide) S Sg hP hrun pkg root o ho fs [] none Cog.Front.JsonSchema.m0 hty
+  have hscal : f.ty.isScalar = true := by rw [hfty, scalarOf_eq]; rfl
+  obtain ⟨hn1, hr1, ht1⟩ := imgField_parts f
+  have hsrc : (imgField f).ty = (srcField s p t).ty := by rw [ht1, srcField, hname, hreq, hfty]
+  have hreq' : (imgField f).required = (srcField s p t).required := by
+    rw [hr1, hreq]
+    exact ((imgField_parts { name := p.1, ty := scalarOf p.2.attrs t, required := s.attrs.required.contains p.1 }).2.1).symm
+  have hnd : namesNodup (NotRequiredFieldAsNullableType.vFields fs) = true := by
+    apply defaults_namesNodup
+    rw [vFields_names, Cog.Front.JsonSchema.fieldsBuilt_names hbuilt]
+    exact Cog.Front.JsonSchema.sortedKeys_namesNodup hsorted
+  have := C10_go_partial fuel' Sg pkg root _ _ [] Cog.Front.JsonSchema.m0 jg (imgField f) j hgo hloc hty'
+    (by simpa [setTy] using hsp) (by simpa [setTy] using hsn) hnd (vFields_mem_scalar hf hscal)
+    (by rw [goFits_scalar_congr Sg [] _ _ hsrc hreq' (imgField_scalar hscal)]; exact hfit)
+    (by rw [declaredOf_congr _ _ hsrc]; exact hj)
+  rw [hn1, hname] at this
+  exact this
+
+/-- Python: the same for `json.dumps(Root())` -/
+theorem C10_jsonschema_default_py_end_to_end_partial
+    (pkg : String) (defs : Defs) (fuel : Nat) (root : String) (S Sp : Schemas) (s : JS) (p : String × JS) (t : String)
+    (fuel' : Nat) (jp j : Json)
+    (hS : frontEnd pkg defs fuel (refTo root) = .ok S)
+    (hroot : lookupDef defs root = some s) (hobj : isObjectNode s = true) (hsorted : sortedKeys (propsOf s) = true)
+    (hp : p ∈ propsOf s) (hsc : scalarNode p.2 = some t)
+    (hP : PlainN S = true) (hrun : runChain pythonChain S = .ok Sp) (hpy : pyDefaults fuel' Sp pkg root = .ok jp)
+    (hfit : pyFits [] (srcField s p t) = true) (hj : declaredOf (srcField s p t) = some j) :
+    holds jp p.1 j = true := by
+  obtain ⟨o, fs, f, ho, hty, hsp, hsn, hf, hname, hreq, hfty, hbuilt⟩ := keeps_property pkg defs fuel root S hS hroot hobj hp hsc
+  rw [sortFields_id hsorted hbuilt] at hty
+  have hSp := pyChain_exact pythonChain (by decide) S Sp hP hrun
+  have hnr : (fs.all fun f => nrTy f.ty) = true := by
+    have := PlainN_located hP ho
+    rw [hty] at this
+    simpa [nrObjTy] using this
+  have hloc : Schemas.locateObject Sp pkg root = some (pyObj o) := by rw [hSp, locateObject_pyS, ho]; rfl
+  have hty' := pyObj_struct o fs [] none Cog.Front.JsonSchema.m0 hty hnr
+  have hscal : f.ty.isScalar = true := by rw [hfty, scalarOf_eq]; rfl
+  obtain ⟨hn1, hr1, ht1⟩ := imgField_parts f
+  have himg : ({ (NotRequiredFieldAsNullableType.fixField f f.ty) with ty := imgTy f } : Field) = imgField f := by
+    rw [imgTy_scalar f hscal]; rfl
+  have hmem : imgField f ∈ fs.map (fun f => ({ (NotRequiredFieldAsNullableType.fixField f f.ty) with ty := imgTy f } : Field)) := by
+    rw [← himg]; exact List.mem_map.mpr ⟨f, hf, rfl⟩
+  have hsrc : (imgField f).ty = (srcField s p t).ty := by rw [ht1, srcField, hname, hreq, hfty]
+  have hnd : namesNodup (fs.map (fun f => ({ (NotRequiredFieldAsNullableType.fixField f f.ty) with ty := imgTy f } : Field))) = true := by
+    apply defaults_namesNodup
+    have : (fs.map (fun f => ({ (NotRequiredFieldAsNullableType.fixField f f.ty) with ty := imgTy f } : Field))).map (·.name) = fs.map (·.name) := by
+      rw [List.map_map]
+      apply List.map_congr_left
+      intro g _
+      exact fixField_name' g
+    rw [this, Cog.Front.JsonSchema.fieldsBuilt_names hbuilt]
+    exact Cog.Front.JsonSchema.sortedKeys_namesNodup hsorted
+  have := C10_py_partial fuel' Sp pkg root _ _ [] none Cog.Front.JsonSchema.m0 jp (imgField f) j hpy hloc hty' hnd hmem
+    (by rw [pyFits_scalar_congr Sp [] _ _ hsrc (imgField_scalar hscal)]; exact hfit)
+    (by rw [declaredOf_congr _ _ hsrc]; exact hj)
+  rw [hn1, hname] at this
+  exact this
+
+/-- schema property with a fitting default / constant ⇒ BOTH constructors hold it at that member, and for scalars the two
+    encoded members are identical: defaults and constants survive front-end, chains and jennies -/
+theorem C10_jsonschema_default_end_to_end_partial
+    (pkg : String) (defs : Defs) (fuel : Nat) (root : String) (S Sg Sp : Schemas) (s : JS) (p : String × JS) (t : String)
+    (fg fp : Nat) (jg jp j : Json)
+    (hS : frontEnd pkg defs fuel (refTo root) = .ok S)
+    (hroot : lookupDef defs root = some s) (hobj : isObjectNode s = true) (hsorted : sortedKeys (propsOf s) = true)
+    (hp : p ∈ propsOf s) (hsc : scalarNode p.2 = some t)
+    (hPg : Plain S = true) (hPp : PlainN S = true)
+    (hrg : runChain goChain S = .ok Sg) (hrp : runChain pythonChain S = .ok Sp)
+    (hgo : goDefaults fg Sg pkg root = .ok jg) (hpy : pyDefaults fp Sp pkg root = .ok jp)
+    (hfg : goFits [] (srcField s p t) = true) (hfp : pyFits [] (srcField s p t) = true)
+    (hj : declaredOf (srcField s p t) = some j) :
+    holds jg p.1 j = true ∧ holds jp p.1 j = true ∧ (flat j = true → memberOf jg p.1 = memberOf jp p.1) := by
+  have h1 := C10_jsonschema_default_go_end_to_end_partial pkg defs fuel root S Sg s p t fg jg j hS hroot hobj hsorted hp hsc hPg hrg hgo hfg hj
+  have h2 := C10_jsonschema_default_py_end_to_end_partial pkg defs fuel root S Sp s p t fp jp j hS hroot hobj hsorted hp hsc hPp hrp hpy hfp hj
+  exact ⟨h1, h2, fun hf => by rw [holds_flat_member hf h1, holds_flat_member hf h2]⟩
+
+/-- what the declared value IS, read off the source: the JSON of the source's constant (`const` / constant pattern), else of
+    its `default` (with the generator's dynamic type), else nothing -/
+theorem srcField_declares (s : JS) (p : String × JS) (t : String) :
+    declaredOf (srcField s p t) =
+      if (srcConst p.2.attrs t).isNilV then
+        (if (srcDefault p.2.attrs t).isNilV then none else valJson (srcDefault p.2.attrs t))
+      else valJson (srcConst p.2.attrs t) := by
+  unfold srcField
+  rw [scalarOf_eq]
+  obtain ⟨b, hb⟩ := scalarImg_scalar p.1 (srcKind t) (srcConst p.2.attrs t) (srcConstraints p.2.attrs t)
+    { dflt := srcDefault p.2.attrs t, hints := if t = "string" then stringHints p.2.attrs else [] } (s.attrs.required.contains p.1)
+  rw [declaredOf_scalar _ hb]
+
+/-! ### non-vacuity -/
+
+def sc' (a : JAttrs) : JS := .mk a [] [] [] [] .none .none .none
+
+/-- `R = {b?: boolean = true, c: string const "fixed", i: integer = -3, n?: number = 2.5, pm?: string ^math$, s?: string = "hey"}` -/
+def exProps : List (String × JS) := [
+  ("b", sc' { types := ["boolean"], dflt := .bool true }),
+  ("c", sc' { types := ["string"], const := some (.str "fixed") }),
+  ("i", sc' { types := ["integer"], dflt := .num "-3" "-3", minimum := some { num := -5, den := 1, f64 := "-5" } }),
+  ("n", sc' { types := ["number"], dflt := .num "2.5" "2.5" }),
+  ("pm", sc' { types := ["string"], pattern := some "^math$" }),
+  ("s", sc' { types := ["string"], dflt := .str "hey", maxLength := 5 })]
+
+def exRoot : JS := .mk { types := ["object"], hasProps := true, required := ["c", "i"] } [] [] [] exProps (.bool false) .none .none
+def exDefsFE : Defs := [("R", exRoot)]
+
+def expected : List (String × String × Json) :=
+  [("b", "boolean", .bool true), ("c", "string", .str "fixed"), ("i", "integer", .num (-12)), ("n", "number", .num 10),
+   ("pm", "string", .str "math"), ("s", "string", .str "hey")]
+
+/-- the hypotheses of the three theorems hold for every property of the example, and so do the conclusions evaluated on
+    the models (front-end, both chains, both constructor printers) -/
+example :
+    isObjectNode exRoot = true ∧ sortedKeys (propsOf exRoot) = true ∧
+    (exProps.map fun p => scalarNode p.2) = [some "boolean", some "string", some "integer", some "number", some "string", some "string"] ∧
+    (expected.all fun e => match exProps.find? (fun p => p.1 == e.1) with
+      | some p => goFits [] (srcField exRoot p e.2.1) && pyFits [] (srcField exRoot p e.2.1) &&
+                  (match declaredOf (srcField exRoot p e.2.1) with | some j => j == e.2.2 | none => false)
+      | none => false) = true ∧
+    (match frontEnd "p" exDefsFE 8 (refTo "R") with
+     | .ok S =>
+       Plain S && PlainN S &&
+       (match runChain goChain S, runChain pythonChain S with
+        | .ok Sg, .ok Sp =>
+          (match goDefaults 8 Sg "p" "R", pyDefaults 8 Sp "p" "R" with
+           | .ok jg, .ok jp => expected.all fun e => holds jg e.1 e.2.2 && holds jp e.1 e.2.2
+           | _, _ => false)
+        | _, _ => false)
+     | _ => false) = true := by
+  refine ⟨by decide +kernel, by decide +kernel, by decide +kernel, by decide +kernel, by decide +kernel⟩
+
+/-! ### the full statement and its refutation -/
+
+/-- the JSON a scalar `default` keyword stands for -/
+def jvDeclared (v : JV) : Option Json :=
+  match v with
+  | .null => none
+  | .arr _ | .obj _ => none
+  | v => valJson (unwrapJSONNumber v)
+
+/-- FULL statement: every scalar `default` written beside ANY property schema of an object definition is held by the Go
+    constructor generated from the schema.  False on the current tree: the front-end reads `default` only in
+    `walkString` / `walkBool` / `walkNumber` / `walkList`. -/
+def C10_jsonschema_default_full : Prop :=
+  ∀ (pkg : String) (defs : Defs) (fuel : Nat) (root : String) (S Sg : Schemas) (s : JS) (p : String × JS) (fg : Nat) (jg j : Json),
+    frontEnd pkg defs fuel (refTo root) = .ok S → lookupDef defs root = some s → isObjectNode s = true → p ∈ propsOf s →
+    runChain goChain S = .ok Sg → goDefaults fg Sg pkg root = .ok jg → jvDeclared p.2.attrs.dflt = some j →
+    holds jg p.1 j = true
+
+def cxEnumProp : String × JS :=
+  ("e", sc' { types := ["string"], enum := some [.str "a", .str "b"], dflt := .str "b" })
+def cxRootFE : JS := .mk { types := ["object"], hasProps := true } [] [] [] [cxEnumProp] (.bool false) .none .none
+def cxDefsFE : Defs := [("R", cxRootFE)]
+
+/-- `R = {e?: string enum [a, b] default "b"}`: `default` beside an inline `enum` is not read by the front-end (known finding
+    C10/jsonschema/inline-enum-default-dropped; replayed on the real front-end: pinned case `pinenums` of stream c01-front,
+    member `es`) -/
+theorem C10_jsonschema_default_counterexample : ¬ C10_jsonschema_default_full := by
+  intro h
+  have hw : (match frontEnd "p" cxDefsFE 8 (refTo "R") with
+      | .ok S =>
+        (match runChain goChain S with
+         | .ok Sg => (match goDefaults 12 Sg "p" "R" with | .ok jg => !holds jg "e" (.str "b") | _ => false)
+         | _ => false)
+      | _ => false) = true := by decide +kernel
+  cases hS : frontEnd "p" cxDefsFE 8 (refTo "R") with
+  | ok S =>
+    rw [hS] at hw
+    cases hr : runChain goChain S with
+    | ok Sg =>
+      simp only [hr] at hw
+      cases hg : goDefaults 12 Sg "p" "R" with
+      | ok jg =>
+        simp only [hg] at hw
+        have := h "p" cxDefsFE 8 "R" S Sg cxRootFE cxEnumProp 12 jg (.str "b") hS rfl (by decide +kernel) (by simp [propsOf, cxRootFE])
+          hr hg rfl
+        have this' : holds jg "e" (.str "b") = true := this
+        rw [this'] at hw
+        cases hw
+      | cerr _ => simp [hg] at hw
+      | unsup _ => simp [hg] at hw
+      | fuel => simp [hg] at hw
+    | err _ => simp [hr] at hw
+    | panic _ => simp [hr] at hw
+  | err _ => simp [hS] at hw
+  | panic _ => simp [hS] at hw
+
+end FE
+-- ---- END block of the c01-front builder ----
 
 end Cog.Sem.Defaults
